@@ -149,6 +149,123 @@ def close_enough(o1, o2, tol):
     return True
 
 
+# ---- several variable fonts cut out of one designspace (format 5 <variable-fonts>) -----------------
+MULTI_LOCS = [0, 400, 600, 1000]
+MULTI_VFS = {"TextVF": (0, 0, 400, [0, 1]), "DisplayVF": (600, 600, 1000, [2, 3])}  # min, default, max, masters
+MULTI_GLYPHS = ["a", "b", "c", "acutecomb", "ogonekcomb", "k"]
+
+
+def build_multi(c):
+    """Four masters on one axis, two variable fonts over disjoint sub-ranges with their OWN default
+    masters.  c["extra"] names the variable font whose masters use an additional anchor class
+    (ogonek / _ogonek) that the other cut does not have; kerning differs per master."""
+    specs = []
+    for mi, loc in enumerate(MULTI_LOCS):
+        kcc, kgg = c["kern"][mi % len(c["kern"])]
+        spec = master_spec(mi, KV[kcc], KV[kgg], ANCHOR_PAL[mi % len(ANCHOR_PAL)])
+        spec["glyphs"]["ogonekcomb"] = {"width": 0, "unicodes": [0x328], "anchors": [],
+                                        "contours": [B.box(-20, -150, 20 + 20 * mi, -90)]}
+        spec["order"] = list(spec["glyphs"])
+        in_extra = any(mi in MULTI_VFS[v][3] for v in c["extra"])
+        if in_extra:
+            spec["glyphs"]["a"]["anchors"].append(("ogonek", 400 + 20 * mi, -10))
+            spec["glyphs"]["ogonekcomb"]["anchors"].append(("_ogonek", 5 + mi, 0))
+        specs.append(spec)
+    sources = [{"spec": sp, "location": {"Weight": loc}, "name": f"m{mi}", "share": f"m{mi}"}
+               for mi, (sp, loc) in enumerate(zip(specs, MULTI_LOCS))]
+    if c.get("reverse"):
+        sources = sources[::-1]
+    axes = [{"name": "Weight", "tag": "wght", "min": 0, "default": 0, "max": 1000}]
+    vfs = [{"name": n, "axes": [{"name": "Weight", "min": lo, "default": df, "max": hi}]}
+           for n, (lo, df, hi, _) in MULTI_VFS.items()]
+    if c.get("reverse"):
+        vfs = vfs[::-1]
+    ds = B.build_designspace(axes, sources, variable_fonts=vfs, format_version="5.0")
+    return ds, specs
+
+
+def run_multi(c):
+    import ufo2ft
+    from fontTools.varLib import instancer
+    ds, specs = build_multi(c)
+    viols, sig = [], []
+    ctr = {"master_instances": 0, "pair_checks": 0, "anchor_checks": 0, "outline_checks": 0,
+           "multi_vf_fonts": 0, "multi_vf_extra_anchor_class_checks": 0}
+    feat = {"topo": "multi-vf", "flavour": c["flavour"], "vf": c["vf"], "extra": c["extra"]}
+    if c["flavour"] == "ttf":
+        fonts = ufo2ft.compileVariableTTFs(ds, useProductionNames=False, variableFeatures=c["vf"])
+        mds = ufo2ft.compileInterpolatableTTFsFromDS(build_multi(c)[0], useProductionNames=False)
+    else:
+        fonts = ufo2ft.compileVariableCFF2s(ds, useProductionNames=False, variableFeatures=c["vf"])
+        mds = ufo2ft.compileInterpolatableOTFsFromDS(build_multi(c)[0], useProductionNames=False)
+    master_fonts = {s.name: s.font for s in mds.sources}
+    if sorted(fonts) != sorted(MULTI_VFS):
+        viols.append(violation("variable-font-set", dict(feat), observed=sorted(fonts), expected=sorted(MULTI_VFS)))
+    for vname, (lo, df, hi, members) in MULTI_VFS.items():
+        if vname not in fonts:
+            continue
+        vfont = O.reload(fonts[vname])
+        ctr["multi_vf_fonts"] += 1
+        f2 = dict(feat, font=vname)
+        for mi in members:
+            spec = specs[mi]
+            inst = O.reload(instancer.instantiateVariableFont(vfont, {"wght": MULTI_LOCS[mi]}, inplace=False))
+            ctr["master_instances"] += 1
+            mfont = master_fonts[f"m{mi}"]
+            for g in MULTI_GLYPHS:
+                ctr["outline_checks"] += 1
+                o1, o2 = outline(inst, g), outline(mfont, g)
+                if not close_enough(o1, o2, 1.0):
+                    viols.append(violation("outline-differs-at-master", dict(f2), master=mi, glyph=g,
+                                           instance=o1, expected=o2))
+                if abs(inst["hmtx"][g][0] - spec["glyphs"][g]["width"]) > 1:
+                    viols.append(violation("advance-differs-at-master", dict(f2), master=mi, glyph=g,
+                                           instance=inst["hmtx"][g][0], expected=spec["glyphs"][g]["width"]))
+            lay = O.Layout(inst)
+            kerning = {(k[0], k[1]): k[2] for k in spec["kerning"]}
+            exported = set(inst.getGlyphOrder())
+            if lay.gpos is not None:
+                tag = lay.select_script_tag("Latn")
+                kl = lay.lookups_for(tag, {"kern"}) if tag else []
+                ml = lay.lookups_of_features({"mark", "mkmk"})
+            else:
+                kl, ml = [], []
+            for g1 in MULTI_GLYPHS:
+                for g2 in MULTI_GLYPHS:
+                    want, level = K.lookup(kerning, spec["groups"], g1, g2, exported)
+                    adj = lay.pair_adjust(kl, g1, g2) if kl else {"xAdv1": 0, "xAdv2": 0}
+                    got = adj["xAdv1"] + adj["xAdv2"]
+                    ctr["pair_checks"] += 1
+                    if got != K.quantise(want):
+                        viols.append(violation("kerning-differs-at-master", dict(f2, level=level), master=mi,
+                                               pair=(g1, g2), instance=got, expected=want))
+                    sig.append((vname, mi, g1, g2, got))
+            anchors = {g: {a[0]: (otround(a[1]), otround(a[2])) for a in spec["glyphs"][g].get("anchors", ())}
+                       for g in MULTI_GLYPHS}
+            for base, mark, cls in (("a", "acutecomb", "top"), ("b", "acutecomb", "top"),
+                                    ("a", "ogonekcomb", "ogonek"), ("b", "ogonekcomb", "ogonek")):
+                att = lay.mark_attachments(ml, base, mark) if ml else []
+                ctr["anchor_checks"] += 1
+                if cls in anchors[base] and "_" + cls in anchors[mark]:
+                    if cls == "ogonek":
+                        ctr["multi_vf_extra_anchor_class_checks"] += 1
+                    want = (anchors[base][cls], anchors[mark]["_" + cls])
+                    if not att or (att[-1]["base_anchor"], att[-1]["mark_anchor"]) != want:
+                        viols.append(violation("anchor-differs-at-master", dict(f2, cls=cls), master=mi, base=base,
+                                               instance=att[-1:] if att else None, expected=want))
+                elif att:
+                    viols.append(violation("attachment-without-anchors", dict(f2, cls=cls), master=mi, base=base,
+                                           instance=att[-1:]))
+                sig.append((vname, mi, base, mark, att[-1]["offset"] if att else None))
+    seen, out = set(), []
+    for v in viols:
+        k = (v["kind"], str(sorted(v["features"].items())))
+        if k not in seen:
+            seen.add(k)
+            out.append(v)
+    return Result(out, ctr, digest(sig), substates=ctr["master_instances"], nontrivial=1)
+
+
 class C10(Property):
     id = "C10"
     rule = ("state = (topology, axis map, per-master kerning presence pattern, per-master anchors, flavour, "
@@ -207,12 +324,23 @@ class C10(Property):
                             if fl == "cff2" and kern == kerns[0]:
                                 out.append([{"topo": topo, "kern": [list(k) for k in kern], "anchors": anchors,
                                              "flavour": fl, "vf": vf, "axis_map": amap, "opt0": True}])
+        # several variable fonts of one designspace, each with its own default master
+        mk = [[(1, 2), (2, 1)], [(1, 0), (0, 1)], [(2, 2), (0, 0)]]
+        for kern in (mk if b["tier"] != "quick" else mk[:2]):
+            for fl in b["flavours"]:
+                for vf in b["vf"]:
+                    for extra in (["DisplayVF"], ["TextVF"], [], ["TextVF", "DisplayVF"]):
+                        for rev in (False, True):
+                            out.append([{"part": "multi", "kern": [list(k) for k in kern], "flavour": fl, "vf": vf,
+                                         "extra": extra, "reverse": rev}])
         return out
 
     def run(self, h, b):
         import ufo2ft
         from fontTools.varLib import instancer
         c = h[0]
+        if c.get("part") == "multi":
+            return run_multi(c)
         ds, specs, masters, axes = build_ds(c)
         viols = []
         ctr = {"master_instances": 0, "pair_checks": 0, "pairs_absent_in_this_master_present_elsewhere": 0,
